@@ -140,6 +140,95 @@ Definition templ_topb (t : ty) : bool := match t with TTempl _ _ _ false PNone =
 Lemma templ_topb_ok : forall t, templ_topb t = true -> templ_top t.
 Proof. intros [tn c k b|ns nm ps c k] H; cbn in *; [discriminate|]. destruct c; [discriminate|]. destruct k; try discriminate. exact I. Qed.
 
+(* classes of the fragment: constructors, methods and properties, grouped in that order *)
+Fixpoint omap {A B} (f : A -> option B) (l : list A) : option (list B) :=
+  match l with
+  | [] => Some []
+  | x :: r => match f x, omap f r with Some a, Some b => Some (a :: b) | _, _ => None end
+  end.
+Lemma omap_map : forall A B C (f : A -> option B) (g : B -> C) (h : A -> C), (forall x y, f x = Some y -> g y = h x) ->
+  forall l r, omap f l = Some r -> map g r = map h l.
+Proof.
+  intros A B C f g h Hf. induction l as [|x l IH]; intros r H; cbn [omap] in H; [inversion H; reflexivity|].
+  destruct (f x) as [a|] eqn:Ea; [|discriminate]. destruct (omap f l) as [b|] eqn:Eb; [|discriminate].
+  inversion H; subst r. cbn [map]. rewrite (Hf x a Ea), (IH b eq_refl). reflexivity.
+Qed.
+
+Definition plain_args (a : list arg) : list (ty * string) := map (fun x => (a_ty x, a_name x)) a.
+Definition mem_of_ctor (cn : string) (k : ctor) : option mem :=
+  match k with
+  | {| k_tmpl := None; k_name := n; k_args := a |} =>
+    if String.eqb n cn && forallb (fun x => noneb (a_default x)) a then Some (MC (plain_args a)) else None
+  | _ => None
+  end.
+Definition mem_of_method (m : method) : option mem :=
+  match m with
+  | {| m_tmpl := None; m_name := n; m_ret := RSingle t; m_args := a; m_const := c |} =>
+    if forallb (fun x => noneb (a_default x)) a then Some (MM t n (plain_args a) c) else None
+  | _ => None
+  end.
+Definition mem_of_prop (v : var) : option mem :=
+  match v with
+  | {| v_ty := t; v_name := n; v_default := None |} => Some (MP t n)
+  | _ => None
+  end.
+
+Lemma mem_of_ctor_ok : forall cn k m, mem_of_ctor cn k = Some m -> mem_member cn m = MCtor k.
+Proof.
+  intros cn [[tm|] n a] m H; cbn [mem_of_ctor] in H; [discriminate|].
+  destruct (String.eqb n cn) eqn:En; [|discriminate]. cbn [andb] in H.
+  destruct (forallb (fun x => noneb (a_default x)) a) eqn:F; [|discriminate]. inversion H; subst m.
+  apply String.eqb_eq in En. subst cn. cbn [mem_member]. unfold ctor_member, plain_args. rewrite (args_back a F). reflexivity.
+Qed.
+Lemma mem_of_method_ok : forall cn x m, mem_of_method x = Some m -> mem_member cn m = MMethod x.
+Proof.
+  intros cn [[tm|] n [t|t1 t2] a c] m H; cbn [mem_of_method] in H; try discriminate.
+  destruct (forallb (fun x => noneb (a_default x)) a) eqn:F; [|discriminate]. inversion H; subst m.
+  cbn [mem_member]. unfold method_member, plain_args. rewrite (args_back a F). reflexivity.
+Qed.
+Lemma mem_of_prop_ok : forall cn x m, mem_of_prop x = Some m -> mem_member cn m = MVar x.
+Proof. intros cn [t n [d|]] m H; cbn [mem_of_prop] in H; [discriminate|]. inversion H; subst m. reflexivity. Qed.
+
+Lemma fm_same : forall A B (C : A -> B) (f : B -> list A) l, (forall x, f (C x) = [x]) -> flat_map f (map C l) = l.
+Proof. intros A B C f l H. induction l as [|x l IH]; [reflexivity|]. cbn [map flat_map]. rewrite H, IH. reflexivity. Qed.
+Lemma fm_none : forall A A' B (C : A -> B) (f : B -> list A') l, (forall x, f (C x) = []) -> flat_map f (map C l) = [].
+Proof. intros A A' B C f l H. induction l as [|x l IH]; [reflexivity|]. cbn [map flat_map]. rewrite H, IH. reflexivity. Qed.
+
+Lemma class_of_grouped : forall v n ks ms ps,
+  class_of_members v n (map MCtor ks ++ map MMethod ms ++ map MVar ps)
+  = {| c_tmpl := None; c_virtual := v; c_name := n; c_base := None; c_ctors := ks; c_methods := ms; c_statics := [];
+       c_dunders := []; c_props := ps; c_ops := []; c_enums := [] |}.
+Proof.
+  intros v n ks ms ps. unfold class_of_members. rewrite !flat_map_app.
+  f_equal; repeat first [rewrite fm_same by (intros; reflexivity) | rewrite fm_none by (intros; reflexivity)];
+    rewrite ?app_nil_r; reflexivity.
+Qed.
+
+Definition item_of_class (c : class) : option item :=
+  match c with
+  | {| c_tmpl := None; c_virtual := v; c_name := n; c_base := None; c_ctors := ks; c_methods := ms; c_statics := [];
+       c_dunders := []; c_props := ps; c_ops := []; c_enums := [] |} =>
+    match omap (mem_of_ctor n) ks, omap mem_of_method ms, omap mem_of_prop ps with
+    | Some a, Some b, Some c => Some (IClass v n (a ++ b ++ c))
+    | _, _, _ => None
+    end
+  | _ => None
+  end.
+Lemma item_of_class_ok : forall c i, item_of_class c = Some i -> idecl i = DClass c.
+Proof.
+  intros [tm v n ba ks ms ss ds ps os es] i H. cbn [item_of_class] in H.
+  destruct tm; [discriminate|]. destruct ba; [discriminate|]. destruct ss; [|discriminate]. destruct ds; [|discriminate].
+  destruct os; [|discriminate]. destruct es; [|discriminate].
+  destruct (omap (mem_of_ctor n) ks) as [a|] eqn:Ea; [|discriminate].
+  destruct (omap mem_of_method ms) as [b|] eqn:Eb; [|discriminate].
+  destruct (omap mem_of_prop ps) as [c|] eqn:Ec; [|discriminate]. inversion H; subst i.
+  cbn [idecl]. unfold class_decl. rewrite !map_app.
+  rewrite (omap_map _ _ _ (mem_of_ctor n) (mem_member n) MCtor (mem_of_ctor_ok n) ks a Ea).
+  rewrite (omap_map _ _ _ mem_of_method (mem_member n) MMethod (mem_of_method_ok n) ms b Eb).
+  rewrite (omap_map _ _ _ mem_of_prop (mem_member n) MVar (mem_of_prop_ok n) ps c Ec).
+  rewrite class_of_grouped. reflexivity.
+Qed.
+
 (* declaration trees of the fragment: functions, and namespaces of such *)
 Fixpoint item_of_decl (d : decl) : option item :=
   match d with
@@ -157,6 +246,7 @@ Fixpoint item_of_decl (d : decl) : option item :=
   | DInclude h => Some (IInc h)
   | DEnum {| e_name := n; e_items := l |} => Some (IEnum n l)
   | DTypedef tn n => Some (ITypedef (ty_of_tn tn) n)
+  | DClass c => item_of_class c
   | DFun {| f_tmpl := None; f_name := n; f_ret := RPair a b; f_args := l |} =>
     if forallb (fun x => noneb (a_default x)) l then Some (IFnP a b n (map (fun x => (a_ty x, a_name x)) l)) else None
   | _ => match fn_of_decl d with Some x => Some (IFn x) | None => None end
@@ -182,7 +272,7 @@ Lemma idecl_item : forall k i, idepth i < k -> forall d, item_of_decl d = Some i
 Proof.
   induction k as [|k IH]; intros i Hd d H; [lia|].
   destruct d as [c|f|tg nn|fw|inc|e|v|n ds].
-  - cbn [item_of_decl fn_of_decl] in H. discriminate.
+  - cbn [item_of_decl] in H. apply item_of_class_ok. exact H.
   - destruct f as [tm fnm r a]. destruct tm as [tm|]; destruct r as [t|t1 t2]; cbn [item_of_decl fn_of_decl] in H; try discriminate.
     + destruct (forallb (fun x => noneb (a_default x)) a) eqn:F; [|discriminate]. inversion H; subst i. cbn [idecl decl_of]. f_equal. f_equal.
       apply args_back. exact F.
@@ -224,6 +314,59 @@ Qed.
 Definition plainb (t : ty) : bool := match t with TPlain _ _ _ _ => true | _ => false end.
 Lemma plainb_ok : forall t, plainb t = true -> plain t. Proof. intros [| ] H; [exact I | discriminate]. Qed.
 
+Definition name_okb (h : chars) : bool :=
+  match h with c :: _ => negb (ceq "_"%char c) | [] => false end && negb (memc h [ktemplate; kstatic; kenum; kpair]).
+Lemma name_okb_ok : forall h, name_okb h = true -> name_ok h.
+Proof.
+  intros h H. unfold name_okb in H. apply andb_true_iff in H. destruct H as [H1 H2]. unfold name_ok. split.
+  - destruct h as [|c h]; [discriminate|]. cbn [no_us]. apply negb_true_iff in H1. exact H1.
+  - unfold memc in H2. destruct (in_dec chars_dec h [ktemplate; kstatic; kenum; kpair]) as [i|ni]; [discriminate|].
+    repeat split; intros E; apply ni; subst h; cbn; tauto.
+Qed.
+Definition head_memb (t : ty) : bool :=
+  match ty_toks t with
+  | h :: _ => negb (nilb h) && forallb (in_str alnum_) h && name_okb h
+  | [] => false
+  end.
+Lemma head_memb_ok : forall t, head_memb t = true -> head_mem t.
+Proof.
+  intros t H. unfold head_memb in H. destruct (ty_toks t) as [|h rest'] eqn:E; [discriminate|].
+  apply andb_true_iff in H. destruct H as [H H3]. apply andb_true_iff in H. destruct H as [H1 H2].
+  exists h, rest'. split; [exact E|]. split; [split; [intros X; subst h; discriminate | exact H2] | apply name_okb_ok; exact H3].
+Qed.
+Definition not_operatorb (n : chars) : bool := noneb (prefix koperator n).
+Definition wf_memb (m : mem) : bool :=
+  match m with
+  | MC args => forallb wf_argb args
+  | MM t n args _ => wf_tyb t && Nat.ltb (depth t) depth_fuel && head_memb t && is_ident (chars_of n) && not_operatorb (chars_of n)
+                     && forallb wf_argb args
+  | MP t n => wf_tyb t && Nat.ltb (depth t) depth_fuel && head_memb t && is_ident (chars_of n) && not_operatorb (chars_of n)
+  end.
+Lemma wf_argsb_ok : forall args, forallb wf_argb args = true -> Forall wf_arg args.
+Proof. intros args H. apply Forall_forall. intros a Ha. apply wf_argb_ok. rewrite forallb_forall in H. apply H. exact Ha. Qed.
+Lemma wf_memb_ok : forall m, wf_memb m = true -> wf_mem m.
+Proof.
+  intros [args | t n args cst | t n] H; cbn [wf_memb wf_mem] in *.
+  - apply wf_argsb_ok. exact H.
+  - apply andb_true_iff in H. destruct H as [H H6]. apply andb_true_iff in H. destruct H as [H H5]. apply andb_true_iff in H. destruct H as [H H4].
+    apply andb_true_iff in H. destruct H as [H H3]. apply andb_true_iff in H. destruct H as [H1 H2]. apply Nat.ltb_lt in H2.
+    split; [apply (wf_tyb_ok _ _ H2 H1)|]. split; [exact H2|]. split; [apply head_memb_ok; exact H3|]. split; [exact H4|].
+    split; [|apply wf_argsb_ok; exact H6]. unfold not_operatorb, not_operator in *. destruct (prefix koperator (chars_of n)); [discriminate | reflexivity].
+  - apply andb_true_iff in H. destruct H as [H H5]. apply andb_true_iff in H. destruct H as [H H4].
+    apply andb_true_iff in H. destruct H as [H H3]. apply andb_true_iff in H. destruct H as [H1 H2]. apply Nat.ltb_lt in H2.
+    split; [apply (wf_tyb_ok _ _ H2 H1)|]. split; [exact H2|]. split; [apply head_memb_ok; exact H3|]. split; [exact H4|].
+    unfold not_operatorb, not_operator in *. destruct (prefix koperator (chars_of n)); [discriminate | reflexivity].
+Qed.
+Definition wf_classb (n : string) (ms : list mem) : bool :=
+  is_ident (chars_of n) && name_okb (chars_of n) && negb (memc (chars_of n) reserved) && forallb wf_memb ms.
+Lemma wf_classb_ok : forall n ms, wf_classb n ms = true -> wf_class n ms.
+Proof.
+  intros n ms H. unfold wf_classb in H. apply andb_true_iff in H. destruct H as [H H4]. apply andb_true_iff in H. destruct H as [H H3].
+  apply andb_true_iff in H. destruct H as [H1 H2]. split; [exact H1|]. split; [apply name_okb_ok; exact H2|]. split.
+  - unfold memc in H3. destruct (in_dec chars_dec (chars_of n) reserved) as [i|ni]; [discriminate | exact ni].
+  - apply Forall_forall. intros m Hm. apply wf_memb_ok. rewrite forallb_forall in H4. apply H4. exact Hm.
+Qed.
+
 Fixpoint wf_itemb (i : item) : bool :=
   match i with
   | IFn x => wf_fnb x
@@ -234,11 +377,12 @@ Fixpoint wf_itemb (i : item) : bool :=
   | IFnP a b n l => wf_tyb a && wf_tyb b && plainb a && plainb b && is_ident (chars_of n) && forallb wf_argb l
   | IEnum n l => is_ident (chars_of n) && negb (memc (chars_of n) [chars_of "class"; chars_of "struct"]) && negb (nilb l)
                  && forallb (fun y => is_ident (chars_of y)) l
+  | IClass _ n ms => wf_classb n ms
   | INs n b => is_ident (chars_of n) && forallb wf_itemb b
   end.
 Lemma wf_itemb_ok : forall k i, idepth i < k -> wf_itemb i = true -> wf_item i.
 Proof.
-  induction k as [|k IH]; intros i Hd H; [lia|]. destruct i as [x|t n|vt n|hd|en el|tt tnm|pa pb pn pl|n b]; cbn [wf_itemb wf_item] in *.
+  induction k as [|k IH]; intros i Hd H; [lia|]. destruct i as [x|t n|vt n|hd|en el|tt tnm|pa pb pn pl|cv cn cms|n b]; cbn [wf_itemb wf_item] in *.
   - apply wf_fnb_ok. exact H.
   - apply andb_true_iff in H. destruct H as [H H4]. apply andb_true_iff in H. destruct H as [H H3].
     apply andb_true_iff in H. destruct H as [H1 H2]. apply Nat.ltb_lt in H2.
@@ -261,6 +405,7 @@ Proof.
     split; [apply (wf_tyb_ok 1 pb); [rewrite (plain_depth pb P2); lia | exact H2]|].
     split; [exact P1|]. split; [exact P2|]. split; [exact H5|].
     apply Forall_forall. intros a Ha. apply wf_argb_ok. rewrite forallb_forall in H6. apply H6. exact Ha.
+  - apply wf_classb_ok. exact H.
   - apply andb_true_iff in H. destruct H as [H1 H2]. split; [exact H1|]. cbn [idepth] in Hd.
     assert (Hb : forall j, In j b -> wf_item j).
     { intros j Hj. apply IH; [pose proof (idepth_ge b j Hj); lia | rewrite forallb_forall in H2; apply H2; exact Hj]. }
